@@ -170,6 +170,13 @@ Definition neg_class_table_sound_entries : list (sx * sx) :=
     (X OpNegCharClass "[^\W]" [X OpEscapeChar "\W" []], X OpEscapeChar "\w" []);
     (X OpNegCharClass "[^\d]" [X OpEscapeChar "\d" []], X OpEscapeChar "\D" []);
     (X OpNegCharClass "[^\D]" [X OpEscapeChar "\D" []], X OpEscapeChar "\d" []);
+    (* the same six as the parser really builds them: the escape carries its letter as an argument *)
+    (X OpNegCharClass "[^\s]" [X OpEscapeChar "\s" [X OpString "s" []]], X OpEscapeChar "\S" []);
+    (X OpNegCharClass "[^\S]" [X OpEscapeChar "\S" [X OpString "S" []]], X OpEscapeChar "\s" []);
+    (X OpNegCharClass "[^\w]" [X OpEscapeChar "\w" [X OpString "w" []]], X OpEscapeChar "\W" []);
+    (X OpNegCharClass "[^\W]" [X OpEscapeChar "\W" [X OpString "W" []]], X OpEscapeChar "\w" []);
+    (X OpNegCharClass "[^\d]" [X OpEscapeChar "\d" [X OpString "d" []]], X OpEscapeChar "\D" []);
+    (X OpNegCharClass "[^\D]" [X OpEscapeChar "\D" [X OpString "D" []]], X OpEscapeChar "\d" []);
     (X OpNegCharClass "[^[:^word:]]" [X OpPosixClass "[:^word:]" []], X OpEscapeChar "\w" []);
     (X OpNegCharClass "[^[:word:]]" [X OpPosixClass "[:word:]" []], X OpEscapeChar "\W" []);
     (X OpNegCharClass "[^[:^digit:]]" [X OpPosixClass "[:^digit:]" []], X OpEscapeChar "\d" []);
